@@ -496,3 +496,11 @@ Definition conv_geom_h (o : convop) : geom :=
 Definition conv_geom_w (o : convop) : geom :=
   {| g_in := cw (o_ifm o); g_out := cw (o_oshape o); g_k := o_kw o; g_d := o_dx o; g_s := o_sx o;
      g_top := p_left (o_pad o); g_bottom := p_right (o_pad o); g_sk_t := p_left (o_skirt o); g_sk_b := p_right (o_skirt o) |}.
+
+(* ------------------------------------------------------------------ validator for emitted stripes (D2) *)
+(* every tap of outputs 0..n-1 of a stripe handed (b0,b1,p0,p1) equals the reference tap of operator outputs r0..r0+n-1
+   over the valid range [lo,hi) with leading padding top *)
+Definition check_stripe_taps (b0 b1 p0 p1 n s kd d k lo hi top r0 : Z) : bool :=
+  forallb (fun i => forallb (fun ky =>
+    tap_eqb (hw_tap b0 b1 p0 p1 n s kd i (ky * d)) (ref_tap lo hi top s (r0 + i) (ky * d)))
+    (range_from (Z.to_nat k) 0 1)) (range_from (Z.to_nat n) 0 1).
